@@ -100,15 +100,15 @@ def comb_jit(N, k):
     INTP_MAX = np.iinfo(np.intp).max
     if N < 0 or k < 0 or k > N:
         return 0
-    if k == 0:
+    nterms = min(k, N - k)
+    if nterms == 0:
         return 1
-    if k == 1:
+    if nterms == 1:
         return N
     if N == INTP_MAX:
         return 0
 
     M = N + 1
-    nterms = min(k, N - k)
 
     val = 1
 
